@@ -36,17 +36,90 @@ def _wrappers(cy: CyProgram):
             raise AnalysisError(f"{core.where}: _line_dist parameter `{a}` of type {k} "
                                 f"has no known role (signature changed)")
         pnames.append(ROLE[(k, i)])
-    core_roles = dict(zip([a for a, _ in core.args], pnames))
     out = {}
     for f in m.funcs.values():
-        calls = [s for s in walk(f.body) if isinstance(s, X) and s.k == "call"
-                 and pp(s.a[0]) == "_line_dist"]
-        if f is core or not calls:
+        if f is core or f.kind != "def":
             continue
-        if len(calls) != 1 or len(calls[0].a[1]) != len(pnames):
-            raise AnalysisError(f"{f.where}: unexpected _line_dist call shape in {f.name}")
-        out[f.name] = (f, dict(zip(pnames, calls[0].a[1])))
+        env = {a: ("param", a) for a, _ in f.args}
+        calls = _resolve_core_calls(m, f, env, pnames, 0)
+        if not calls:
+            continue
+        if len(calls) != 1:
+            raise AnalysisError(f"{f.where}: {f.name} reaches _line_dist {len(calls)} "
+                                f"times (expected one call per wrapper)")
+        out[f.name] = (f, calls[0])
     return core, out
+
+
+def _resolve_core_calls(m, f, env, pnames, depth):
+    """Calls of _line_dist reached from f, with every argument described by a
+    *fact*: ('param', wrapper parameter) | ('null',) empty placeholder array |
+    ('const', text) | ('name', module-level name) | ('expr', text).  cdef helpers
+    of the module are inlined; `if <flag>:` on a constant flag selects a branch."""
+    results = []
+    nulls = {n for n, (t, init, _) in f.locals.items() if _is_empty_array(init)}
+
+    def fact(x):
+        if x.k == "name":
+            nm = x.a[0]
+            if nm in env:
+                return env[nm]
+            if nm in nulls:
+                return ("null",)
+            return ("name", nm)
+        if x.k in ("num", "bool"):
+            return ("const", pp(x))
+        if x.k == "call" and x.a[0].k == "name" and x.a[0].a[0] in m.funcs and not x.a[1]:
+            h = m.funcs[x.a[0].a[0]]
+            rets = [r for r in walk(h.body) if isinstance(r, X) and r.k == "return"
+                    and r.a[0] is not None]
+            if rets and all(_is_empty_array(r.a[0]) for r in rets):
+                return ("null",)
+        if _is_empty_array(x):
+            return ("null",)
+        return ("expr", pp(x))
+
+    def truth(cond):
+        neg = False
+        while cond.k == "not":
+            neg, cond = not neg, cond.a[0]
+        c = fact(cond)
+        if c in (("const", "True"), ("const", "1")):
+            return not neg
+        if c in (("const", "False"), ("const", "0")):
+            return neg
+        return None
+
+    def go(stmts):
+        for st in stmts:
+            if st.k == "if":
+                decided = False
+                for cond, b in st.a[0]:
+                    tv = truth(cond)
+                    if tv is True:
+                        go(b)
+                        decided = True
+                        break
+                    if tv is None:
+                        go(b)
+                if not decided:
+                    go(st.a[1])
+            elif st.k in ("for", "while"):
+                go(st.a[2] if st.k == "for" else st.a[1])
+            elif st.k == "expr" and st.a[0].k == "call":
+                c = st.a[0]
+                fn = pp(c.a[0])
+                if fn == "_line_dist":
+                    if len(c.a[1]) != len(pnames):
+                        raise AnalysisError(f"{f.where}: _line_dist called with "
+                                            f"{len(c.a[1])} arguments in {f.name}")
+                    results.append({r: fact(a) for r, a in zip(pnames, c.a[1])})
+                elif fn in m.funcs and depth < 3 and m.funcs[fn] is not f:
+                    h = m.funcs[fn]
+                    env2 = {p: fact(a) for (p, _), a in zip(h.args, c.a[1])}
+                    results.extend(_resolve_core_calls(m, h, env2, pnames, depth + 1))
+    go(f.body)
+    return results
 
 
 def _is_empty_array(init) -> bool:
@@ -71,36 +144,41 @@ def l1(run: Run, prog: Program, cy: CyProgram):
     run.floor("line-dist wrappers", len(wr), 9)
     for name, (f, a) in sorted(wr.items()):
         ft = _features(name)
-        params = {p for p, _ in f.args}
-        nulls = {n for n, (t, init, _) in f.locals.items() if _is_empty_array(init)}
         exp = {}
-        exp["i2J"] = f"i2J_{ft['line']}line"
-        exp["ij2I"] = f"ij2I_{ft['line']}line"
-        exp["skip_main"] = "True" if ft["line"] == "diag" else "False"
-        exp["black"] = "False" if ft["white"] else "True"
-        exp["missing_values"] = "True" if ft["mv"] else "False"
-        got = {k: pp(v) for k, v in a.items()}
-        bad = [(k, got[k], v) for k, v in exp.items() if got[k] != v]
+        exp["i2J"] = ("name", f"i2J_{ft['line']}line")
+        exp["ij2I"] = ("name", f"ij2I_{ft['line']}line")
+        exp["skip_main"] = ("const", "True" if ft["line"] == "diag" else "False")
+        exp["black"] = ("const", "False" if ft["white"] else "True")
+        exp["missing_values"] = ("const", "True" if ft["mv"] else "False")
+
+        def show(v):
+            return v[1] if len(v) > 1 else "<empty array>"
+        got = {k: show(v) for k, v in a.items()}
+        bad = [(k, got[k], v[1]) for k, v in exp.items() if a[k] != v]
+        is_param = lambda r: a[r][0] == "param"        # noqa: E731
+        is_null = lambda r: a[r] == ("null",)          # noqa: E731
         # storage mode
         if ft["sequential"]:
-            if not (got["E"] in params and got["R"] in nulls and got["eps"] in params
-                    and got["dim"] in params and got["metric"] == "metric_supremum"):
+            if not (is_param("E") and is_null("R") and is_param("eps")
+                    and is_param("dim") and a["metric"] == ("name", "metric_supremum")):
                 bad.append(("storage", f"R={got['R']},E={got['E']},eps={got['eps']},"
                             f"dim={got['dim']},metric={got['metric']}",
                             "sequential: null R, E/eps/dim parameters, metric_supremum"))
         else:
-            if not (got["R"] in params and got["E"] in nulls and got["eps"] == "0"
-                    and got["dim"] == "0" and got["metric"] == "metric_null"):
+            if not (is_param("R") and is_null("E") and a["eps"] in (("const", "0"),
+                                                                   ("const", "0.0"))
+                    and a["dim"] == ("const", "0")
+                    and a["metric"] == ("name", "metric_null")):
                 bad.append(("storage", f"R={got['R']},E={got['E']},eps={got['eps']},"
                             f"dim={got['dim']},metric={got['metric']}",
                             "matrix: R parameter, null E, eps=0, dim=0, metric_null"))
         if ft["mv"]:
-            if got["M"] not in params:
+            if not is_param("M"):
                 bad.append(("M", got["M"], "the wrapper's mask parameter"))
         else:
-            if got["M"] not in nulls:
+            if not is_null("M"):
                 bad.append(("M", got["M"], "an empty mask"))
-        if got["n_time"] not in params or got["hist"] not in params:
+        if not is_param("n_time") or not is_param("hist"):
             bad.append(("n_time/hist", f"{got['n_time']},{got['hist']}", "parameters"))
         run.oblige("L1", name, not bad, sample={
             "where": f.where, "features": ft, "args": got})
